@@ -144,7 +144,8 @@ func (m *Machine) interpPkg(path string) bool {
 		path == "github.com/bits-and-blooms/bitset" ||
 		path == "strconv" ||
 		path == "unicode/utf8" ||
-		path == "math/bits"
+		path == "math/bits" ||
+		path == "net/netip"
 	m.interpPkgs[path] = v
 	return v
 }
